@@ -26,6 +26,10 @@ import (
 // style...). An edit of one result is no engine call at all, so it changes neither the template's base document
 // (U3) nor any other result.
 
+// keepCap: the caller holds on to the first keepCap documents of a history (every kept document is observed again
+// after every later call: histories with dozens of renders would spend their time there).
+const keepCap = 32
+
 type kept struct {
 	what string // the call that returned it
 	doc  *document.Document
@@ -44,6 +48,10 @@ func (k *kept) record() {
 // keep registers the document of a render result. Call it when the comparisons of the render are done.
 func (x *runner) keep(what string, r *result) *kept {
 	if r == nil || r.doc == nil || kit.RaceMode() {
+		return nil
+	}
+	if len(x.kept) >= keepCap {
+		x.res.Count("kept:beyond-cap-not-kept", 1)
 		return nil
 	}
 	k := &kept{what: what, doc: r.doc, body: r.body, mem: r.mem, snap: r.snap}
